@@ -164,6 +164,44 @@ func (d *detSet) classifyMapRange(f *ssa.Function, rng *ssa.Range) (class, why s
 			}
 		}
 	}
+	// an append whose variadic elements carry iteration data yields an iteration-dependent slice (the element reaches the
+	// call through a temporary array, not as an operand)
+	for again := true; again; {
+		again = false
+		for _, b := range blocks {
+			for _, in := range b.Instrs {
+				call, ok := in.(*ssa.Call)
+				if !ok || iter[call] {
+					continue
+				}
+				if bi, ok := call.Common().Value.(*ssa.Builtin); ok && bi.Name() == "append" && len(call.Common().Args) == 2 {
+					if iter[call.Common().Args[1]] || iterAny(iter, sliceLitElems(call.Common().Args[1])) {
+						iter[call] = true
+						again = true
+					}
+				}
+			}
+		}
+		// propagate to the users
+		for changed := true; changed; {
+			changed = false
+			for _, b := range blocks {
+				for _, in := range b.Instrs {
+					v, ok := in.(ssa.Value)
+					if !ok || iter[v] {
+						continue
+					}
+					for _, op := range in.Operands(nil) {
+						if *op != nil && iter[*op] {
+							iter[v] = true
+							changed, again = true, true
+							break
+						}
+					}
+				}
+			}
+		}
+	}
 	var appendsTo []ssa.Value       // slices appended to with iteration-derived data
 	builtBases := map[string]bool{} // containers (locals / fields) that receive the slices built in map order
 	var notes []string
@@ -300,6 +338,11 @@ func (d *detSet) classifyMapRange(f *ssa.Function, rng *ssa.Range) (class, why s
 				n := calleeName(cc)
 				if strings.HasPrefix(n, "sort.") || strings.HasPrefix(n, "slices.Sort") {
 					sortedBases[containerBase(p.path(cc.Args[0]))] = true
+				} else if sc := cc.StaticCallee(); sc != nil && inCanopyRaw(sc) {
+					// a helper that sorts its parameter in place
+					if i := sorterParam(p, sc, 0); i >= 0 && i < len(cc.Args) {
+						sortedBases[containerBase(p.path(cc.Args[i]))] = true
+					}
 				}
 			}
 		})
@@ -809,6 +852,67 @@ func isPureLeaf(f *ssa.Function) bool {
 		}
 	})
 	return pure
+}
+
+// sorterParam: f sorts one of its slice parameters in place (sort.* / slices.Sort* directly, or through another such
+// function): the parameter's index, -1 if none.
+func sorterParam(p *Prog, f *ssa.Function, depth int) int {
+	f = origin(f)
+	if f == nil || len(f.Blocks) == 0 || depth > 2 {
+		return -1
+	}
+	res := -1
+	for _, b := range f.Blocks {
+		for _, in := range b.Instrs {
+			call, ok := in.(*ssa.Call)
+			if !ok || len(call.Common().Args) == 0 {
+				continue
+			}
+			arg := -1
+			n := calleeName(call.Common())
+			if strings.HasPrefix(n, "sort.") || strings.HasPrefix(n, "slices.Sort") {
+				arg = 0
+			} else if sc := call.Common().StaticCallee(); sc != nil && inCanopyRaw(sc) && origin(sc) != f {
+				arg = sorterParam(p, sc, depth+1)
+			}
+			if arg < 0 || arg >= len(call.Common().Args) {
+				continue
+			}
+			v := call.Common().Args[arg]
+			for {
+				if sl, ok := v.(*ssa.Slice); ok {
+					v = sl.X
+					continue
+				}
+				if mi, ok := v.(*ssa.MakeInterface); ok {
+					v = mi.X
+					continue
+				}
+				// a parameter captured by the comparator closure lives in a cell: the load of a cell stored once
+				if u, ok := v.(*ssa.UnOp); ok && u.Op == token.MUL {
+					if a, ok := u.X.(*ssa.Alloc); ok {
+						var stored ssa.Value
+						n := 0
+						for _, ref := range *a.Referrers() {
+							if st, ok := ref.(*ssa.Store); ok && st.Addr == a {
+								stored = st.Val
+								n++
+							}
+						}
+						if n == 1 {
+							v = stored
+							continue
+						}
+					}
+				}
+				break
+			}
+			if pa, ok := v.(*ssa.Parameter); ok {
+				res = paramIndex(pa)
+			}
+		}
+	}
+	return res
 }
 
 // containerBase strips address-of markers and trailing index expressions: the container a slice lives in.
